@@ -356,8 +356,11 @@ def _run_sharded(argv, lines, timeout, shards=None, on_timeout=None):
     return out
 
 
-def run_model(fam, lines, timeout=1500):
-    return _run_sharded(["sh", "-c", "ulimit -s unlimited 2>/dev/null || ulimit -s 1000000; exec %s %s" % (os.path.join(BUILD, "ocaml", "model"), fam)], lines, timeout,
+def run_model(fam, lines, timeout=1500, line_timeout=None):
+    """line_timeout (seconds): the driver gives up on a case after that long and answers
+    `skip model-timeout` - only for callers that treat such an answer as 'not evaluated'"""
+    pre = ("MODEL_LINE_TIMEOUT=%d " % line_timeout) if line_timeout else ""
+    return _run_sharded(["sh", "-c", "ulimit -s unlimited 2>/dev/null || ulimit -s 1000000; %sexec %s %s" % (pre, os.path.join(BUILD, "ocaml", "model"), fam)], lines, timeout,
                         on_timeout="skip model-shard-timeout")
 
 
@@ -530,13 +533,13 @@ class Check:
         """Run the same case lines through model and implementation, diff. Returns list of
         (case, model_obs, impl_obs) disagreements."""
         name = name or fam
-        m = run_model(fam, cases)
+        m = run_model(fam, cases, line_timeout=60)
         i = run_impl(fam, cases, variant)
         dis = []
         skipped = 0
         for c, a, b in zip(cases, m, i):
             self.evaluations += 1
-            if a is not None and skip(a):
+            if a is not None and (a.startswith("skip model-") or skip(a)):   # model gave up on the line (time limit): not evaluated
                 skipped += 1
                 continue
             if c not in self.distinct:
